@@ -225,6 +225,13 @@ func (d *badgerNodeDB) cleanMultipartLocked(removeNodes bool) error {
 		return nil
 	}
 
+	// If the restored version has already been finalized (e.g. the process was interrupted right
+	// after finalization but before the multipart state was cleaned), the restored nodes are live
+	// and must be kept, only the log needs to be removed.
+	if lastFinalizedVersion, exists := d.meta.getLastFinalizedVersion(); exists && lastFinalizedVersion >= version {
+		removeNodes = false
+	}
+
 	txn := d.db.NewTransactionAt(tsMetadata, false)
 	defer txn.Discard()
 
